@@ -170,13 +170,71 @@ def minimise(mod, case, sig, wall_s=60):
     return best
 
 
-def write_replay(prop, modname, case, sig, detail):
+def capture_traces(mod, case, sig):
+    """Run the case once more recording every simulator's decision trace.
+    -> dict seed -> list of decisions (only if the signature recurs)."""
+    from . import sched
+    sched.CAPTURE = {}
+    try:
+        r = mod.run_case(case)
+        sims = dict(sched.CAPTURE)
+    finally:
+        sched.CAPTURE = None
+    if not any(v['sig'] == sig for v in r.get('violations', [])):
+        return None
+    return {k: list(s.trace) for k, s in sims.items() if s.trace}
+
+
+def _holds(mod, case, sig, forced):
+    from . import sched
+    sched.FORCED = forced
+    try:
+        r = mod.run_case(case)
+    except BaseException:  # pylint: disable=broad-except
+        return False
+    finally:
+        sched.FORCED = None
+    return any(v['sig'] == sig for v in r.get('violations', []))
+
+
+def minimise_traces(mod, case, sig, traces, wall_s=40):
+    """Shorten each decision trace to the shortest prefix that still reproduces the signature;
+    decisions beyond the prefix take the default (first enabled task, whole-segment delivery,
+    optional faults off)."""
+    t0 = time.time()
+    best = dict(traces)
+    if not _holds(mod, case, sig, best):
+        return None
+    for seed in sorted(best, key=lambda k: -len(best[k])):
+        lo, hi = 0, len(best[seed])
+        while lo < hi and time.time() - t0 < wall_s:
+            mid = (lo + hi) // 2
+            trial = dict(best)
+            trial[seed] = best[seed][:mid]
+            if _holds(mod, case, sig, trial):
+                hi = mid
+            else:
+                lo = mid + 1
+        trial = dict(best)
+        trial[seed] = best[seed][:hi]
+        if _holds(mod, case, sig, trial):
+            best = trial
+    return best
+
+
+def write_replay(prop, modname, case, sig, detail, traces=None, full_lengths=None):
     os.makedirs(REPLAYS, exist_ok=True)
     h = hashlib.sha1((sig + json.dumps(case, sort_keys=True)).encode()).hexdigest()[:12]
     path = os.path.join(REPLAYS, '%s-%s.json' % (prop, h))
     with open(path, 'w') as f:
         json.dump({'property': prop, 'workload': modname, 'case': case, 'signature': sig,
-                   'detail': detail}, f, indent=1, sort_keys=True)
+                   'detail': detail, 'seed': case.get('seed') if isinstance(case, dict) else None,
+                   'decision_traces': traces,
+                   'decision_traces_note': 'per simulator seed: the minimised prefix of the '
+                   'recorded decisions (scheduling choices, delivery sizes, fault coins); every '
+                   'later decision takes the default. null = replay from the PRNG seed alone.',
+                   'recorded_trace_lengths': full_lengths},
+                  f, indent=1, sort_keys=True)
     return path
 
 
@@ -184,7 +242,12 @@ def replay(prop, modname, path):
     with open(path) as f:
         rep = json.load(f)
     mod = importlib.import_module(rep.get('workload', modname))
-    r = mod.run_case(rep['case'])
+    from . import sched
+    sched.FORCED = rep.get('decision_traces') or None
+    try:
+        r = mod.run_case(rep['case'])
+    finally:
+        sched.FORCED = None
     sigs = [v['sig'] for v in r.get('violations', [])]
     print('replay signatures: %s' % sigs)
     if rep['signature'] in sigs:
@@ -208,6 +271,7 @@ def main(prop, argv):
     ap.add_argument('--no-evidence', action='store_true')
     ap.add_argument('--digests', help='write per-case digests to this file (determinism self-test)')
     ap.add_argument('--limit', type=int, default=0)
+    ap.add_argument('--stride', type=int, default=1)
     args = ap.parse_args(argv)
     modname = 'simdicom.workloads.' + prop.lower()
     mod = importlib.import_module(modname)
@@ -220,15 +284,30 @@ def main(prop, argv):
         prop, tier, args.seed, jobs, budget, os.environ.get('VERIF_REPO', '/repo')))
     sys.stdout.flush()
     cases = mod.cases(tier, args.seed)
+    if args.stride > 1:
+        import itertools
+        cases = itertools.islice(cases, 0, None, args.stride)
     if args.limit:
         import itertools
         cases = itertools.islice(cases, args.limit)
     if args.digests:
         out = []
-        for case in cases:
-            r = mod.run_case(case)
-            out.append((json.dumps(case, sort_keys=True), r.get('digest'),
-                        sorted(v['sig'] for v in r.get('violations', []))))
+        cases = list(cases)
+        if jobs > 1:
+            ctx = multiprocessing.get_context('fork')
+            with cf.ProcessPoolExecutor(max_workers=jobs, mp_context=ctx) as ex:
+                futs = [ex.submit(_run_chunk, modname, c) for c in chunked(cases, 4)]
+                for f in futs:
+                    for r in f.result():
+                        out.append((json.dumps(r['case'], sort_keys=True), r.get('digest'),
+                                    r.get('harness_error'),
+                                    sorted(v['sig'] for v in r.get('violations', []))))
+        else:
+            for case in cases:
+                r = mod.run_case(case)
+                out.append((json.dumps(case, sort_keys=True), r.get('digest'), None,
+                            sorted(v['sig'] for v in r.get('violations', []))))
+        out.sort()
         with open(args.digests, 'w') as f:
             json.dump(out, f)
         return 0
@@ -263,7 +342,15 @@ def main(prop, argv):
         for vv in r2.get('violations', []):
             if vv['sig'] == sig:
                 det = vv.get('detail', det)
-        path = write_replay(prop, modname, small, sig, det)
+        traces = full = None
+        try:
+            rec = capture_traces(mod, small, sig)
+            if rec:
+                full = {k: len(t) for k, t in rec.items()}
+                traces = minimise_traces(mod, small, sig, rec)
+        except BaseException:  # pylint: disable=broad-except
+            traces = None
+        path = write_replay(prop, modname, small, sig, det, traces, full)
         # re-verify in a fresh interpreter
         env = dict(os.environ)
         p = subprocess.run([sys.executable, os.path.join(VERIF, 'check'), prop, '--replay', path],
